@@ -1370,13 +1370,11 @@ class Console:
                     display(self._buffer)
                     del self._buffer[:]
                 else:
-                    if self.record:
-                        with self._record_buffer_lock:
-                            self._record_buffer.extend(self._buffer[:])
-                    text = self._render_buffer(self._buffer[:])
+                    segments = self._buffer[:]
+                    text = self._render_buffer(segments)
                     del self._buffer[:]
-                    if text:
-                        try:
+                    try:
+                        if text:
                             if WINDOWS:  # pragma: no cover
                                 # https://bugs.python.org/issue37871
                                 write = self.file.write
@@ -1384,10 +1382,16 @@ class Console:
                                     write(line)
                             else:
                                 self.file.write(text)
+                        # record what the file has taken, and only that: not output the file
+                        # refused, and also output whose flush fails afterwards
+                        if self.record:
+                            with self._record_buffer_lock:
+                                self._record_buffer.extend(segments)
+                        if text:
                             self.file.flush()
-                        except UnicodeEncodeError as error:
-                            error.reason = f"{error.reason}\n*** You may need to add PYTHONIOENCODING=utf-8 to your environment ***"
-                            raise
+                    except UnicodeEncodeError as error:
+                        error.reason = f"{error.reason}\n*** You may need to add PYTHONIOENCODING=utf-8 to your environment ***"
+                        raise
 
     def _render_buffer(self, buffer: Iterable[Segment]) -> str:
         """Render buffered output, and clear buffer."""
